@@ -28,6 +28,7 @@ type IntState struct {
 	// constraining the stored word (mode 0: C07's subject).
 	PushFree bool
 	blockAlt bool
+	lateEI   bool // IFF1 reads false and becomes true when the next instruction has completed (see Next)
 	Consumed bool // the pending request was consumed by this Step
 }
 
@@ -104,7 +105,23 @@ func (s *IntState) clone() *IntState {
 // with request req in the slot (nil: none). At most two states: the fork is
 // the "one instruction after the enabling EI" clause.
 func (s *IntState) Next(req *Req) []*IntState {
-	out := s.next0(req)
+	var out []*IntState
+	if s.lateEI {
+		out = s.nextLate(req)
+	} else {
+		out = s.next0(req)
+	}
+	// "EI sets both flip-flops ... taken once IFF1 is set again (at the next Step boundary or, as on silicon,
+	// one instruction after the enabling EI)": an implementation of the delay may keep IFF1 reading false
+	// until the instruction after EI has completed (IFF2 set at once). Every state that has just executed
+	// EI gets a sibling in which IFF1 is still to come.
+	for _, o := range append([]*IntState(nil), out...) {
+		if o.Last == KExec && o.JustEI && o.IFF1 && o.IFF2 {
+			m := o.clone()
+			m.IFF1, m.lateEI = false, true
+			out = append(out, m)
+		}
+	}
 	// a repeating search (CPIR / CPDR) either repeats or is finished: the model does not follow BC, HL and
 	// A, so a Step that executed one has two candidates
 	n := len(out)
@@ -115,6 +132,31 @@ func (s *IntState) Next(req *Req) []*IntState {
 			m.PC += 2
 			out = append(out, m)
 		}
+	}
+	return out
+}
+
+// nextLate: IFF1 reads false, IFF2 true, and IFF1 becomes true when the instruction now following has
+// completed (unless that instruction says otherwise). A maskable request is refused in this Step.
+func (s *IntState) nextLate(req *Req) []*IntState {
+	if req != nil && req.NMI {
+		var out []*IntState
+		for _, iff2 := range []bool{true, false} { // what the NMI saves: "about to be enabled", or what IFF1 reads
+			n := s.clone()
+			n.lateEI, n.JustEI = false, false
+			n.push(n.PC)
+			n.PC = 0x0066
+			n.IFF2, n.IFF1 = iff2, false
+			n.Last, n.Consumed, n.PushFree = KAcceptNMI, true, false
+			out = append(out, n)
+		}
+		return out
+	}
+	t := s.clone()
+	t.lateEI, t.JustEI, t.IFF1 = false, false, true
+	out := t.next0(nil)
+	for _, o := range out {
+		o.Consumed = false
 	}
 	return out
 }
@@ -181,6 +223,16 @@ func (s *IntState) next0(req *Req) []*IntState {
 				// JP nn supplied by the device: no push at all
 				n.PushFree = false
 				n.PC = uint16(d[2])<<8 | uint16(d[1])
+			case len(d) >= 2 && d[0] == 0xed && (d[1] == 0x4d || d[1] == 0x45):
+				// RETI / RETN supplied by the device: an executed RETI/RETN like any other - pops, notifies
+				// once (IFF1 := IFF2 of RETN and the clearing of both by the acceptance give false either way)
+				n.PushFree = false
+				n.PC = n.pop()
+				if d[1] == 0x4d {
+					n.NRETI++
+				} else {
+					n.NRETN++
+				}
 			default:
 				n.Last = KUnknown
 			}
@@ -259,6 +311,9 @@ func (s *IntState) exec() {
 			s.PC += 2
 		case 0x47:
 			s.I = s.A
+			s.PC += 2
+		case 0x57:
+			s.A = s.I // LD A,I (its flags are compared through the refusal twin only)
 			s.PC += 2
 		case 0x45:
 			s.PC += 2
